@@ -9,6 +9,11 @@ def cmd(pid, tier):
 
 # id -> (category, engine, technique, level text, level note, design ref)
 CHECKS = {
+ "C10": ("model_checking", "SCHED",
+   "stateless DFS over all release orders of peer actions, parked call handlers, stop()/handle drop and the library's cfg points on real in-memory WebSocket and HTTP/1.1 connections; trace monitor with a transport write log",
+   "0-3 connections (WebSocket and keep-alive HTTP) with calls whose handler parks at scheduling points, optional subscription, second stop(), dropping all handles, peer close/drop racing the stop; stop() is a scheduling point of its own and so lands at every position of the history. On every execution: each started call whose peer stayed is answered and its handler ran to completion, nothing is written to a transport and no handler starts after stopped() resolved, stopped() resolves and every serve future ends.",
+   "Preemption only at points; 'handed to the transport' = write on the server half of the in-memory duplex. Server::start's accept loop is not in the loop (TowerService assembly).",
+   "DESIGN.md §6 C10"),
  "C06": ("model_checking", "SCHED",
    "stateless DFS over all release orders of peer actions and puppet-handler steps on real in-memory WebSocket connections; interval-rule (linearizability-style) monitor against a reference set of active subscriptions and a slot counter",
    "Caps 0..2, 1-2 connections; peer scripts {subscribe x(cap+1...), unsubscribe own live / repeated / other connection's / never issued / wrong JSON type, close frame, abrupt drop, subscribe again after endings} x handler scripts {hold, return, reject, drop pending, watch closed(), clone + drop one clone}; whole tree when <= 10k (thorough 400k) executions, else <= 2 (thorough 3) deviations. Every unsubscribe answer must equal the reference 'active' value at some trace position between request and answer; every -32006 refusal must be justified by a full connection during the call; the slot count never exceeds the cap; is_closed() of a held sink equals not-active.",
